@@ -1057,7 +1057,7 @@ func envCoq(e *Env) string {
 	for _, o := range e.Own {
 		own = append(own, fmt.Sprintf("(%d, %d, %s, (%d, %d, %s))", o.R, o.I, vtCoq[o.T], o.Seats, o.Thr, kindCoq[o.Kind]))
 	}
-	return fmt.Sprintf("(mkEnv 0 %s %s %s)", vf.List(own), vf.Bool(e.CertpOk), vf.Bool(e.EvidOn))
+	return fmt.Sprintf("(mkEnv 0 %s %s %s %s %s)", vf.List(own), vf.Bool(e.CertpOk), vf.Bool(e.EvidOn), vf.Bool(fixLatch), vf.Bool(fixStale))
 }
 
 func opCoq(o *Op) string {
@@ -1102,6 +1102,44 @@ func obsCoq(ob *Obs) string {
 	l := ob.Latch
 	return fmt.Sprintf("mkObs %d %s (mkL %s %s %s %s %d %d %d) %d", ob.Ret, vf.List(evs),
 		vf.Bool(l[0] == 1), vf.Bool(l[1] == 1), vf.Bool(l[2] == 1), vf.Bool(l[3] == 1), l[4], l[5], l[6], ob.Count)
+}
+
+// ---- which of the two listed repairs does the tree under test contain? ------------------
+// Read off the implementation by running the two witnesses of the findings
+// (fixes/C03_*.md); the model takes the answers as the env flags fix_latch /
+// fix_stale.  Everything else is still compared on every case.
+var fixLatch, fixStale bool
+
+func probeRepairs() {
+	pm := func(t, h, from int, votes uint32) Op {
+		return Op{K: "msg", M: &MsgOp{Status: 2, T: t, R: 32768, I: 1, H: h, P: 1, Sender: from, StakeOk: true, Thr: 4, Kind: 0, Cred: 1, Votes: votes}}
+	}
+	w1 := History{Env: Env{CertpOk: true}, Consistent: true, Ops: []Op{
+		{K: "cache", H: 1, Present: true}, {K: "ctx", R: 32768, I: 1, Step: 4, Cert: true},
+		pm(1, 1, 1, 1), pm(1, 1, 2, 1), pm(1, 2, 1, 1), pm(3, 1, 3, 2)}}
+	fixLatch = true
+	im := newImpl(&w1)
+	for k := range w1.Ops {
+		ob := im.apply(&w1.Ops[k])
+		for _, e := range ob.Events {
+			if e.K == "commit" {
+				fixLatch = false
+			}
+		}
+	}
+	w2 := History{Env: Env{CertpOk: true, Real: true, Stakes: []uint64{160, 195, 33, 79}, ValThr: 3, SeedTag: 975836}, Consistent: true, Ops: []Op{
+		{K: "srv", R: 15, I: 1}, {K: "ctx", R: 15, I: 1, Step: 2},
+		{K: "srv", R: 15, I: 2},
+		{K: "msg", M: &MsgOp{Status: 2, T: 0, R: 15, I: 1, H: 4, P: 1, Sender: 2, StakeOk: true, Thr: 3, Kind: 0, Cred: 2, Votes: 4}}}}
+	normalize(&w2)
+	im = newImpl(&w2)
+	fixStale = true
+	for k := range w2.Ops {
+		ob := im.apply(&w2.Ops[k])
+		if w2.Ops[k].K == "msg" && ob.recorded {
+			fixStale = false
+		}
+	}
 }
 
 // ---- run + check one history --------------------------------------------------------
@@ -1617,7 +1655,22 @@ func genFlow(r *vf.Rng) History {
 	if r.Chance(60) {
 		equivAt = r.Intn(len(phases) + 1)
 	}
+	switchAt := -1
+	if r.Chance(25) {
+		switchAt = 1 + r.Intn(len(phases)-1)
+	}
 	for pi, t := range phases {
+		if pi == switchAt {
+			// the round index moves on between two phases: quorums reached in the
+			// old index must not count in the new one
+			g.idx++
+			for tt := 0; tt < 4; tt++ {
+				if ov := ownLookup(&h, g.round, g.idx-1, tt); ov != nil {
+					h.Env.Own = append(h.Env.Own, OwnView{R: g.round, I: g.idx, T: tt, Seats: ov.Seats, Thr: ov.Thr, Kind: 0})
+				}
+			}
+			g.ctx([]uint32{0, 2, 4, 5}[r.Intn(4)])
+		}
 		if t == 1 {
 			g.ctx(4)
 		}
@@ -1651,6 +1704,66 @@ func genFlow(r *vf.Rng) History {
 	g.ctx(4)
 	g.idx++
 	g.ctx(0)
+	return h
+}
+
+// many contexts in a row: exercises the ring of kept vote sets (eviction after
+// MaxVoteCacheCount contexts, old-round/old-index precommits for kept and for
+// evicted contexts, returning to an earlier context)
+func genContexts(r *vf.Rng) History {
+	h := History{Consistent: true}
+	g := &genState{r: r, h: &h, credMem: map[string]int{}}
+	h.Env.CertpOk, h.Env.EvidOn = true, r.Chance(50)
+	g.round = []uint64{32766, 32767, 9, 65534}[r.Intn(4)]
+	g.idx = 1
+	g.thrP, g.thrC = uint64(4+r.Intn(40)), uint64(4+r.Intn(40))
+	g.nS = 3 + r.Intn(5)
+	g.lead = 1 + r.Intn(nBlocks)
+	for t := 0; t < 4; t++ {
+		g.seats[t] = make([]uint32, nKeys)
+		for j := 1; j < nKeys; j++ {
+			g.seats[t][j] = uint32(1 + r.Intn(4))
+		}
+	}
+	h.Ops = append(h.Ops, Op{K: "cache", H: g.lead, Present: true})
+	var seen [][2]uint64
+	plain := func(st, t int, rr uint64, ii uint32, sender, hash int) {
+		m := &MsgOp{Status: st, T: t, R: rr, I: ii, H: hash, P: 1, Sender: sender, StakeOk: true, Kind: 0, Cred: 1, Votes: g.seats[t][sender], Thr: g.thrP}
+		if t == 3 {
+			m.Thr = g.thrC
+		}
+		h.Ops = append(h.Ops, Op{K: "msg", M: m})
+	}
+	n := 4 + r.Intn(5)
+	for c := 0; c < n; c++ {
+		g.ctx([]uint32{0, 2, 4}[r.Intn(3)])
+		seen = append(seen, [2]uint64{g.round, uint64(g.idx)})
+		for j := 0; j < 1+r.Intn(3); j++ {
+			plain(2, r.Intn(2), g.round, g.idx, 1+r.Intn(g.nS), g.lead)
+		}
+		// precommits for earlier contexts, kept or already evicted
+		for j := 0; j < r.Intn(3); j++ {
+			p := seen[r.Intn(len(seen))]
+			st := 0
+			if p[0] == g.round {
+				st = 1
+			}
+			hsh := g.lead
+			if r.Chance(25) {
+				hsh = 1 + (g.lead % nBlocks) // maybe a double vote in an old context
+			}
+			plain(st, 1, p[0], uint32(p[1]), 1+r.Intn(g.nS), hsh)
+		}
+		if r.Chance(20) && len(seen) > 1 { // back to an earlier context
+			p := seen[r.Intn(len(seen))]
+			g.round, g.idx = p[0], uint32(p[1])
+		} else if r.Chance(35) {
+			g.round++
+			g.idx = 1
+		} else {
+			g.idx++
+		}
+	}
 	return h
 }
 
@@ -1819,6 +1932,8 @@ func gen(seed uint64, n int, outDir, corpusDir string) {
 			hs = append(hs, genFlow(r))
 		case r.Chance(25):
 			hs = append(hs, genReal(r))
+		case r.Chance(15):
+			hs = append(hs, genContexts(r))
 		default:
 			hs = append(hs, genHistory(r))
 		}
@@ -1848,6 +1963,35 @@ func gen(seed uint64, n int, outDir, corpusDir string) {
 			if o.K == "msg" {
 				res.Count("msg_status_" + statusCoq[o.M.Status])
 				res.Count(fmt.Sprintf("msg_ret_%d", rr.obs[j].Ret))
+				m := o.M
+				switch {
+				case m.NoVote:
+					res.Count("msg_class_nil_vote")
+				case m.Sig != 0:
+					res.Count("msg_class_bad_signature_or_sender")
+				case !m.StakeOk:
+					res.Count("msg_class_stake_lookup_error")
+				case m.Cred == 0 || (m.Cred == 2 && rr.obs[j].Ret == 1):
+					res.Count("msg_class_credential_rejected")
+				case m.Cred == 2 && rr.obs[j].recorded:
+					res.Count("msg_class_stale_invalid_credential_counted")
+				case m.Kind == 1:
+					res.Count("msg_class_house_vote")
+				case m.Kind == 2:
+					res.Count("msg_class_other_kind")
+				case m.Status == 3 || m.Status == 4:
+					res.Count("msg_class_future_or_invalid_status")
+				case m.Status == 0 || m.Status == 1:
+					if rr.obs[j].recorded {
+						res.Count("msg_class_old_precommit_recorded")
+					} else {
+						res.Count("msg_class_old_ignored")
+					}
+				case rr.obs[j].recorded:
+					res.Count("msg_class_same_recorded_or_duplicate")
+				default:
+					res.Count("msg_class_same_other_context_dropped")
+				}
 			}
 			for _, e := range rr.obs[j].Events {
 				switch e.K {
@@ -1885,7 +2029,9 @@ func gen(seed uint64, n int, outDir, corpusDir string) {
 	vf.WriteFile(filepath.Join(outDir, "Cases.v"), sb.String())
 	res.Cases = len(hs)
 	res.Distinct = len(distinct)
-	res.Rule = "histories of context changes, cache changes and vote messages driven through the real Voter; non-trivial = a precommit/certificate vote or a commit was emitted; distinct by full history and observations"
+	res.Extra["repair_latched_quorum_present"] = fixLatch
+	res.Extra["repair_stale_credential_present"] = fixStale
+	res.Rule = "histories (6-250 ops) of context changes, block-cache changes, server moves and vote messages driven through the real Voter; four generators: random interleavings (any status / signature / stake / credential outcome, seats split so that partial sums sit at quorum-1, quorum, quorum+1, thresholds 0..2^31), scripted flows with one perturbation (duplicates, equivocation before/after a latched quorum, certificates before precommits, round-index change between phases), many-context runs (ring of 4 kept vote sets, old precommits for kept and evicted contexts), and 'real' flows (fake chain + validator set, real VRF credentials, real Server.verifySortition / getLookbackStakeInfo / verifyVotes, server context ahead of the voter); non-trivial = a precommit or certificate vote or a commit was emitted; distinct by full history and observations"
 	res.Write(filepath.Join(outDir, "result.json"))
 }
 
@@ -1943,6 +2089,7 @@ func main() {
 	logging.Root().SetHandler(logging.DiscardHandler())
 	setupUniverse()
 	startCollector()
+	probeRepairs()
 	switch mode {
 	case "gen":
 		gen(*seed, *n, *out, *corpus)
